@@ -359,16 +359,16 @@ pub fn run(op: &str, t: &[&str], v: &[Val], out: &mut Out) -> bool {
                 by_itype!(ty, T => srem_forms!(out, T, pnum(t[2]), b));
             }
         }
-        // sp A B C ...   Sum / Product over owned and borrowed iterators
+        // sp <U|I> A B C ...   Sum / Product over owned and borrowed iterators
         "sp" => {
-            if v[1].is_u() {
-                let xs: Vec<BigUint> = v[1..].iter().map(|x| x.u().clone()).collect();
+            if t[1] == "U" {
+                let xs: Vec<BigUint> = v[2..].iter().map(|x| x.u().clone()).collect();
                 out.call(|| xs.iter().sum::<BigUint>());
                 out.call(|| xs.clone().into_iter().sum::<BigUint>());
                 out.call(|| xs.iter().product::<BigUint>());
                 out.call(|| xs.clone().into_iter().product::<BigUint>());
             } else {
-                let xs: Vec<BigInt> = v[1..].iter().map(|x| x.i().clone()).collect();
+                let xs: Vec<BigInt> = v[2..].iter().map(|x| x.i().clone()).collect();
                 out.call(|| xs.iter().sum::<BigInt>());
                 out.call(|| xs.clone().into_iter().sum::<BigInt>());
                 out.call(|| xs.iter().product::<BigInt>());
